@@ -43,8 +43,11 @@ def gen_spec(rng, fmt='NETCDF4'):
     unl = None
     if nd and rng.random() < 0.6:
         unl = rng.randrange(nd) if (fmt == 'NETCDF4' and rng.random() < 0.3) else 0
+    unl2 = None
+    if fmt == 'NETCDF4' and unl is not None and nd >= 2 and rng.random() < 0.35:
+        unl2 = rng.choice([i for i in range(nd) if i != unl])   # NETCDF4: several unlimited
     for i, n in enumerate(names):
-        dims.append([n, rng.randrange(1, 6), i == unl])
+        dims.append([n, rng.randrange(1, 6), i == unl or i == unl2])
     if rng.random() < 0.5:
         dims.append(['strlen', rng.randrange(1, 6), False])
     attrs = {}
